@@ -156,10 +156,37 @@ def seeds_for(pid: str) -> list[str]:
     return out
 
 
+def run_equiv(pid: str, name: str, base: str) -> dict:
+    """A behaviour-preserving refactoring written by an independent sub-agent for some property (see /verif/equiv/<name>/):
+    every check must stay silent on it.  A patch that no longer applies is skipped."""
+    d = tempfile.mkdtemp(prefix=f"sa-eq-{pid}-")
+    try:
+        shutil.copytree(os.path.join(base, "src"), os.path.join(d, "src"), ignore=shutil.ignore_patterns("__pycache__", "*.pyc", "*.so"))
+        r = subprocess.run(["patch", "-p1", "-s", "-i", os.path.join(VERIF, "equiv", name, "patch.diff")], cwd=d, capture_output=True, text=True)
+        if r.returncode != 0:
+            return {"name": f"equiv {name}", "expect": "silent", "status": "skipped", "why": "patch no longer applies to the current tree"}
+        env = dict(os.environ, VERIF_REPO=d, VERIF_EVIDENCE_DIR=os.path.join(d, "evidence"), VERIF_TIER="quick")
+        rr = subprocess.run(["/venv/bin/python", "-B", "-m", "sa.main", pid, "--tier", "quick"], cwd=VERIF, env=env, capture_output=True, text=True, timeout=1200)
+        rules = sorted({l.strip().split(" @ ")[0] for l in rr.stdout.splitlines() if " @ " in l and l.strip().startswith(pid + "/")})
+        res = {"name": f"equiv {name}", "expect": "silent", "rc": rr.returncode, "rules": rules}
+        res["status"] = "ok" if rr.returncode == 0 else "FALSE-ALARM"
+        if res["status"] != "ok":
+            res["output"] = (rr.stdout + rr.stderr)[-1500:]
+        return res
+    finally:
+        shutil.rmtree(d, ignore_errors=True)
+
+
+def equivs() -> list[str]:
+    ed = os.path.join(VERIF, "equiv")
+    return sorted(n for n in os.listdir(ed) if os.path.exists(os.path.join(ed, n, "patch.diff"))) if os.path.isdir(ed) else []
+
+
 def run_matrix(pid: str, variants: list[dict], base: str = REPO, jobs: int = 16) -> list[dict]:
     with ThreadPoolExecutor(max_workers=jobs) as ex:
         futs = [ex.submit(run_variant, pid, v["name"], v["edits"], v["expect"], v.get("rule"), base) for v in variants]
         futs += [ex.submit(run_seed, pid, name, base) for name in seeds_for(pid)]
+        futs += [ex.submit(run_equiv, pid, name, base) for name in equivs()]
         from .transforms import TRANSFORMS
 
         futs += [ex.submit(run_transform, pid, t, base) for t in TRANSFORMS]
